@@ -335,13 +335,21 @@ def _lin_run(ctx, items, tag, diag):
     return idx, hw - starts[idx]
 
 
-def validate_histories(ctx, items, tag, chunk=250, par=None):
+def validate_histories(ctx, items, tag, chunk=250, par=None, group=None):
     """items: list of (key, cap, events).  Returns [(key, offset of the deepest
     event explained)] for the histories QueueLin rejects.  Batches run in
     parallel with a depth-first queue; a rejected batch is re-run with
     diagnostics, the rejected history cut out and the rest re-validated."""
     par = par or max(1, NCPU // 2)
-    batches = [items[i:i + chunk] for i in range(0, len(items), chunk)]
+    if group is None:
+        batches = [items[i:i + chunk] for i in range(0, len(items), chunk)]
+    else:
+        # one batch per group (e.g. per client program): the rejections of one group
+        # (known findings, say) do not use up the budget of another
+        by = {}
+        for it in items:
+            by.setdefault(group(it), []).append(it)
+        batches = [g[i:i + chunk] for g in by.values() for i in range(0, len(g), chunk)]
     rejected = []
 
     def one(arg):
